@@ -324,6 +324,12 @@ func (u *Unit) unmarshal(st *State, instr ssa.Instruction, cc *ssa.CallCommon, a
 	st.assume(Eq(Eq(app(SInt, "ity", errv), IntLit(0)), okp))
 	good := Ite(isZero, app(srt, fn, tid, data), app(srt, fnInto, tid, data, prev))
 	bad := u.fresh("partial", srt)
+	if srt == SSlice {
+		// a decoded slice is a well-formed slice value
+		st.assume(app(SBool, "wfSlice", app(srt, fn, tid, data)))
+		st.assume(app(SBool, "wfSlice", app(srt, fnInto, tid, data, prev)))
+		st.assume(app(SBool, "wfSlice", bad))
+	}
 	u.store(st, target, Ite(okp, good, bad))
 	return one(st, errv)
 }
